@@ -59,6 +59,12 @@ CHECKS["C08"] = dict(
     text="Every reachable selection prefix of every alphabet instance of FLP/MCP/DPP/MDPP is visited; invariants on distinctness, forbidden items, done exactly at quota and the bookkeeping tensors shown to the policy are checked in every state, rewards at the leaves.",
     ref="DESIGN.md section 4 C08",
 )
+CHECKS["C09"] = dict(
+    engine="E1 EnvExplorer + E3 ChoiceExplorer",
+    technique="explicit-state BFS of the real improvement env.step from every valid tour over every mask-admitted move (merged on (rec_current, rec_best)), plus stateless exhaustive enumeration of the multinomial answers inside env._random_action and the bundled policies' samplers; transition oracle on every step",
+    text="From every valid tour of small instances every admitted move / every move the random-move sampler or a bundled policy (DACT, NeuOpt, N2S) can emit under any sampler answer is applied with the real step function, up to depth 3 (quick) / 4; each transition is judged for tour validity, precedence, exact current / best-so-far cost, monotone bsf, reward = decrease and visited_time consistency.",
+    ref="DESIGN.md section 4 C09",
+)
 
 NOT_YET = {}
 
